@@ -9,18 +9,12 @@
  *  -DN=<bytes>  -DSPLIT=<k>   bytes [0,k) arrive first, [k,N) second; compared
  *                            with all N bytes in one chunk.  Every byte symbolic. */
 #include "libc_models.h"
-#if !defined VERIF_CBMC
-/* native replay: same redirection by the preprocessor */
+/* the hook ECHSE_VERIF_PROC (src/evical.c, guard ECHSE_VERIF) makes _ical_proc hand the line to rec_proc */
 struct ical_parser_s;
 struct ical_vevent_s;
 static struct ical_vevent_s *rec_proc(struct ical_parser_s *p);
-# define _ical_proc(p)	rec_proc(p)
-# define REC_NATIVE
-#endif
+#define ECHSE_VERIF_PROC(p)	rec_proc(p)
 #include "evical.c"
-#if defined REC_NATIVE
-# undef _ical_proc
-#endif
 
 #if !defined N
 # define N 4
@@ -41,13 +35,15 @@ struct reclog_s {
 static struct reclog_s *cur;
 static struct ical_vevent_s fake_ve;
 
-struct ical_vevent_s *rec_proc(struct ical_parser_s *p)
+static struct ical_vevent_s *rec_proc(struct ical_parser_s *p)
 {
 	/* same contract as _ical_proc: stash[0..six) is one complete (unfolded, unescaped) line */
 	unsigned long long pk = 0ULL;
 	const size_t sz = p->six;
-	if (sz > N) cur->oob = 1;
-	for (unsigned i = 0; i < N; i++) {
+	/* the first 8 bytes and the length identify the line (exact for lines of <= 8 bytes, i.e. N <= 4:
+	 * the end-of-input pull may re-read the last chunk, so a line can be up to 2N bytes long) */
+	if (sz >= sizeof(p->stash)) cur->oob = 1;
+	for (unsigned i = 0; i < 8; i++) {
 		if (i < sz) pk = (pk << 8) | (unsigned char)p->stash[i];
 	}
 	if (cur->n < MAXL) {
@@ -57,15 +53,51 @@ struct ical_vevent_s *rec_proc(struct ical_parser_s *p)
 	cur->n++;
 	/* consumed, like the real one */
 	p->six = 0U;
+#if defined EMIT
 	/* lines starting with 'E' complete a component: an instruction is handed up */
 	return sz && p->stash[0] == 'E' ? &fake_ve : NULL;
+#else
+	/* no line completes a component: _ical_pull keeps chopping until it needs more data */
+	return NULL;
+#endif
 }
 
 static char in1[N + 1], in2a[N + 1], in2b[N + 1];
+static struct ical_parser_s P1;
+
+#if defined VERIF_CBMC
+/* esccpy() writes through a char pointer into the middle of the parser object; CBMC turns
+ * each such write (symbolic offset) into an update of all ~340 scalar fields of the object.
+ * The real esccpy() is therefore run on a window copy of its target: the window
+ * stash[six, six+tz) is copied out, the real function works on the copy -- with array
+ * bounds checked and a canary behind the window, so a write outside [0,tz) is still
+ * reported -- and the window is copied back by direct member indexing.  Installed with
+ * goto-instrument --replace-calls esccpy:esccpy_w; the native replay runs the real call. */
+#define STASHZ	sizeof(P1.stash)
+/* the one call --replace-calls esccpy:esccpy_w must not redirect: a second goto-instrument
+ * run turns this body-less name into the real esccpy (--replace-calls esccpy_real:esccpy) */
+size_t esccpy_real(char *restrict, size_t, const char*, size_t);
+size_t esccpy_w(char *restrict tgt, size_t tz, const char *src, size_t sz)
+{
+	char win[STASHZ + 2];
+	const size_t off = P1.six;
+	CHECK(tgt == P1.stash + off && tz == STASHZ - off && off < STASHZ, "esccpy is handed the free part of the line stash");
+	for (unsigned i = 0; i < STASHZ + 2; i++) {
+		win[i] = i < tz ? P1.stash[off + i] : (char)0x5a;
+	}
+	const size_t n = esccpy_real(win, tz, src, sz);
+	CHECK(win[tz] == (char)0x5a && win[tz + 1 < STASHZ + 2 ? tz + 1 : tz] == (char)0x5a, "esccpy stays inside the space it was given");
+	for (unsigned i = 0; i < STASHZ; i++) {
+		if (i < tz) P1.stash[off + i] = win[i];
+	}
+	return n;
+}
+#endif
 
 /* the callers' loop: pull until "need more data"; a chunk of NB bytes completes at
  * most NB lines, so NB + 1 pulls must suffice */
-#define DRAIN(p, nb) \
+#if defined EMIT
+# define DRAIN(p, nb) \
 	do { \
 		bool done_ = false; \
 		for (unsigned k_ = 0; k_ < (nb) + 1U; k_++) { \
@@ -73,53 +105,64 @@ static char in1[N + 1], in2a[N + 1], in2b[N + 1];
 		} \
 		CHECK(done_, "pulling terminates within one instruction per input byte"); \
 	} while (0)
+#else
+# define DRAIN(p, nb)	CHECK(_ical_pull(p) == NULL, "without completed components a pull consumes the whole chunk")
+#endif
 
 void harness(void)
 {
 	static struct reclog_s L1, L2;
 	/* the parser objects as _ical_init_push/calloc hands them out: all zero where
 	 * the encoded functions look (state, stash index, stash content) */
-	static struct ical_parser_s P1, P2;
 	sym_load();
 	for (unsigned i = 0; i < N; i++) {
 		ASSUME(in.b[i] >= 0 && in.b[i] <= 255);
 #if defined NOBYTE0
 		ASSUME(in.b[i] != 0);
 #endif
-#if defined EXCL
-		EXCL;
-#endif
 		in1[i] = (char)in.b[i];
 		if (i < SPLIT) in2a[i] = (char)in.b[i];
 		else in2b[i - SPLIT] = (char)in.b[i];
 	}
-	/* one chunk */
+#if defined KFONLY_C10_1
+	ASSUME(in.b[SPLIT - 1] == '\\');
+#endif
+#if defined KFONLY_C10_2
+	ASSUME(in.b[SPLIT - 1] == '\n' && (in.b[SPLIT] == ' ' || in.b[SPLIT] == '\t'));
+#endif
+#if defined KF_C10_1
+	/* known finding C10-1: a chunk ending in a backslash (the escaped byte arrives later) */
+	ASSUME(in.b[SPLIT - 1] != '\\');
+#endif
+#if defined KF_C10_2
+	/* known finding C10-2: a folded line split between the newline and its space/tab */
+	ASSUME(!(in.b[SPLIT - 1] == '\n' && (in.b[SPLIT] == ' ' || in.b[SPLIT] == '\t')));
+#endif
+	/* one chunk, then -- in the same parser object, reset to its initial state -- two chunks;
+	 * one object keeps every `p->' access of the real code resolved to a single target */
 	cur = &L1;
 	_ical_push(&P1, in1, N);
 	DRAIN(&P1, N);
-	/* two chunks */
-	cur = &L2;
-	_ical_push(&P2, in2a, SPLIT);
-	DRAIN(&P2, SPLIT);
-	_ical_push(&P2, in2b, N - SPLIT);
-	DRAIN(&P2, N - SPLIT);
-	/* end of input: the last pull, as echs_evical_last_pull does */
-	cur = &L1;
+	/* end of input as every caller handles read() == 0: the pull loop once more on the
+	 * old buffer, then the last pull (echs_evical_last_pull) */
+	DRAIN(&P1, N);
 	(void)_ical_pull(&P1);
+	/* reset */
+	P1.st = ST_UNK, P1.six = 0U, P1.nlp = 0U, P1.buf = NULL, P1.bsz = 0U, P1.bix = 0U;
+	for (unsigned k = 0; k < sizeof(P1.stash); k++) P1.stash[k] = '\0';
 	cur = &L2;
-	(void)_ical_pull(&P2);
+	_ical_push(&P1, in2a, SPLIT);
+	DRAIN(&P1, SPLIT);
+	_ical_push(&P1, in2b, N - SPLIT);
+	DRAIN(&P1, N - SPLIT);
+	DRAIN(&P1, N - SPLIT);
+	(void)_ical_pull(&P1);
 
-	CHECK(!L1.oob && !L2.oob, "no completed line is longer than the input");
+	CHECK(!L1.oob && !L2.oob, "a completed line fits the line stash");
 	CHECK(L1.n == L2.n, "the same number of lines is delivered however the bytes arrive");
 	for (unsigned k = 0; k < MAXL; k++) {
 		if (k < L1.n && k < L2.n) {
 			CHECK(L1.len[k] == L2.len[k] && L1.pk[k] == L2.pk[k], "the same lines are delivered however the bytes arrive");
-		}
-	}
-	CHECK(P1.six == P2.six, "the same partial line is held back however the bytes arrive");
-	for (unsigned k = 0; k < N; k++) {
-		if (k < P1.six && k < P2.six) {
-			CHECK(P1.stash[k] == P2.stash[k], "the held-back partial line has the same content");
 		}
 	}
 	WITNESS_POINT();
